@@ -41,7 +41,7 @@ type regInput struct {
 }
 
 var regNames = []string{"nA", "nB"}
-var regUrls = []string{"U0", "U1", "U2", "U3"}
+var regUrls = []string{"U0", "u0", "U2", "U3"} // the second differs from the first in letter case only: another directory
 var regKeys = []string{"p1", "p2"}
 
 type regHandle struct {
